@@ -217,9 +217,9 @@ static UBool IsFieldPointerValid(const UMessage * msg, uint8 * ptr)
       void * ftptr = GetFieldTypePointer(ptr);
       if (GetNumValidBytesAt(msg, ((uint8*)ftptr)) >= (sizeof(uint32)+sizeof(uint32)))
       {
-         uint8 * fData = GetFieldData(ftptr);
-         const uint32 numValidDataBytes = GetNumValidBytesAt(msg, fData);
-         return ((numValidDataBytes > 0)&&(GetFieldDataLength(ftptr) <= numValidDataBytes));  /* make sure the field's data doesn't extend past the valid bytes either */
+         const uint8 * fData     = GetFieldData(ftptr);
+         const uint8 * afterLast = msg->_buffer+msg->_numValidBytes;
+         return ((fData >= msg->_buffer)&&(fData <= afterLast)&&(GetFieldDataLength(ftptr) <= (uint32)(afterLast-fData)));  /* make sure the field's data doesn't extend past the valid bytes either (a field without any data bytes may end exactly at the end of the valid bytes) */
       }
    }
    return UFalse;
